@@ -300,10 +300,9 @@ example : ∃ prod : Buf,
    i.e. the executable product is `Gadget.acc` (summed over the input columns) with
    `φ_{r,i}[l] = phaseRow sk (rowLimb key.mat (r·rank_in+i) l)`.
    Proved below: each pass `di` is the vector-matrix product with `limb_offset = di` and commutes with
-   the phase (`product_pass_phase_partial`).  Missing: (1) the selection lemma
-   `(ai after vec_znx_dft_copy(dsize, dsize−1−di)).flat[r·rank_in+i] = a_i[limbIdx dsize r di]` lifted from
-   `C07.dft_select` through the column loop; (2) the accumulation `vec_znx_dft_add_assign` over the
-   passes with the per-pass sizes (limbs ≥ `szOf … di` of pass `di` keep the previous content — zero
+   the phase (`product_pass_phase_partial`); in pass `di` the buffer `ai_dft` holds input limb
+   `limbIdx dsize r di` in limb `r` (`product_pass_selection_partial`).  Missing: the accumulation
+   `vec_znx_dft_add_assign` over the passes with the per-pass sizes (limbs ≥ `szOf … di` of pass `di` keep the previous content — zero
    only when `res` entered zeroed, cf. `fused_reads_stale_counterexample`). -/
 
 /-- **`product_pass_phase_partial`**: pass `di > 0` of the `dsize > 1` branch writes into `res_dft_tmp`
@@ -325,12 +324,62 @@ theorem product_pass_phase_partial (sk : List Poly) (a : Buf) (key : Key) (st : 
   have hwf : ({ st.tmp with size := key.mat.size - (key.dsize - di - 2) } : Buf).WF := ⟨htmp.1, hsz, htmp.2.2⟩
   exact opVmp_phase sk _ st'.ai key.mat di l hwf hcols hc hl hlo hM
 
+/-- selection `(step, offset) = (dsize, dsize−1−di)`: result limb `r` is input limb
+`r·dsize + dsize−1−di` (`Gadget.limbIdx`) when that limb exists, zero otherwise -/
+theorem dft_select_limbIdx (n dsize di rs : Nat) (a : Col) (r : Nat) (hd : 0 < dsize) (hdi : di < dsize) (hr : r < rs) :
+    (dftApplyCol n dsize (dsize - di - 1) rs a).getD r (zeroP n) =
+      if Gadget.limbIdx dsize r di < a.length then a.getD (Gadget.limbIdx dsize r di) (zeroP n) else zeroP n := by
+  unfold dftApplyCol
+  rw [mapRange_getD _ _ _ _ hr]
+  have e : dsize - di - 1 + r * dsize = Gadget.limbIdx dsize r di := by unfold Gadget.limbIdx; omega
+  simp only [e]
+  by_cases h : r < min rs ((a.length + dsize - 1) / dsize)
+  · rw [if_pos h]
+  · rw [if_neg h]
+    have h2 : (a.length + dsize - 1) / dsize ≤ r := by omega
+    have h3 : a.length + dsize - 1 < (r + 1) * dsize := by
+      have := (Nat.div_lt_iff_lt_mul hd).mp (Nat.lt_succ_of_le h2)
+      simpa [Nat.succ_mul] using this
+    have h4 : ¬ Gadget.limbIdx dsize r di < a.length := by
+      unfold Gadget.limbIdx
+      rw [Nat.succ_mul] at h3
+      omega
+    rw [if_neg h4]
+
+/-- **`product_pass_selection_partial`**: in pass `di` the buffer `ai_dft` holds, in column `c` and limb
+`r < min((a_size+di)/dsize, dnum)`, the input limb `Gadget.limbIdx dsize r di` of column `c` — the
+regrouping of the limbs into the digits of `gadget_identity`. -/
+theorem product_pass_selection_partial (a : Buf) (key : Key) (st : ProdSt) (di c r : Nat)
+    (hd : 0 < key.dsize) (hdi : di < key.dsize) (hai : st.ai.WF) (hcols : st.ai.cols = a.cols)
+    (hsz : min ((a.size + di) / key.dsize) key.mat.rows ≤ st.ai.maxSize) (hc : c < a.cols)
+    (hr : r < min ((a.size + di) / key.dsize) key.mat.rows) :
+    limbOr0 st.ai.n ((productStep a key st di).ai.act c) r =
+      if Gadget.limbIdx key.dsize r di < (a.act c).length then (a.act c).getD (Gadget.limbIdx key.dsize r di) (zeroP st.ai.n)
+      else zeroP st.ai.n := by
+  have e : (productStep a key st di).ai =
+      (List.range a.cols).foldl (fun (acc : Buf) j => acc.setAct j (dftApplyCol acc.n key.dsize (key.dsize - di - 1) acc.size (a.act j)))
+        { st.ai with size := min ((a.size + di) / key.dsize) key.mat.rows } := by
+    unfold productStep
+    split <;> rfl
+  rw [e]
+  have hwf : ({ st.ai with size := min ((a.size + di) / key.dsize) key.mat.rows } : Buf).WF := ⟨hai.1, hsz, hai.2.2⟩
+  have hfold := foldl_setActG (fun n size j => dftApplyCol n key.dsize (key.dsize - di - 1) size (a.act j))
+    (List.range a.cols) _ hwf List.nodup_range (fun j hj => by rw [hcols]; exact List.mem_range.mp hj) (by intro j; simp)
+  simp only at hfold
+  rw [hfold.2.2.2.2 c, if_pos (List.mem_range.mpr hc)]
+  unfold limbOr0
+  exact dft_select_limbIdx _ _ _ _ _ _ hd hdi hr
+
 /-! ## The defect: fused automorphism forms read an un-zeroed scratch buffer (`dsize ≥ 3`) -/
 
 def exKey3 : Key := { base2k := 4, dsize := 3, p := 1,
                       mat := { n := 1, rows := 1, colsIn := 1, colsOut := 1, size := 4, data := [[[[1], [1], [1], [1]]]] } }
 def exA3 : Buf := { n := 1, cols := 1, size := 1, maxSize := 1, data := [[[1]]] }
 def dirty3 : Buf := { n := 1, cols := 1, size := 4, maxSize := 4, data := [[[0], [0], [0], [5]]] }
+
+/-- non-vacuity of `product_pass_selection_partial`: pass `di = 2` of a `dsize = 3` product selects input limb 0 -/
+example : limbOr0 1 ((productStep exA3 exKey3 { res := zeroBuf 1 1 4, ai := zeroBuf 1 1 1, tmp := zeroBuf 1 1 4 } 2).ai.act 0) 0 = [1] := by
+  decide
 
 /- FULL STATEMENT (false of the code): the result of `gglwe_product_dft` does not depend on the previous
    content of `res`:  ∀ r₁ r₂ (same shape) a key, gglweProductDft r₁ a key = gglweProductDft r₂ a key.
